@@ -92,10 +92,12 @@ class Scheduler:
         self.current = nxt
         self.baton[nxt].release()
 
-def make_tracer(sched, tid, trace_dirs, opcode_codes):
-    """sys.settrace tracer for one thread: a switch point on every ``line`` event (and every
-    ``opcode`` event inside the listed code objects) of library / generated code.  Frames of
-    foreign code get no local tracer, so they cost one global call each."""
+def make_tracer(sched, tid, trace_dirs, opcode_codes, granularity="line", only_phase=None):
+    """sys.settrace tracer for one thread.  granularity "line": a switch point on every ``line``
+    event (and every ``opcode`` event inside the listed code objects) of library / generated code;
+    granularity "call": a switch point at the entry of every library / generated function only
+    (no line tracing at all, an order of magnitude fewer points).  Frames of foreign code get no
+    local tracer, so they cost one global call each."""
     dirs = tuple(trace_dirs)
     opcodes = set(opcode_codes)
 
@@ -106,10 +108,17 @@ def make_tracer(sched, tid, trace_dirs, opcode_codes):
             sched.point(tid, (frame.f_code.co_filename, f"{frame.f_code.co_name}+{frame.f_lasti}"))
         return local
 
+    phases = sched.phases
+
     def glob(frame, event, arg):
+        if only_phase is not None and phases[tid][0] != only_phase:
+            return None      # outside the explored phase nothing is a switch point (and nothing is traced)
         code = frame.f_code
         fn = code.co_filename
         if fn == "<string>" or fn.startswith(dirs):
+            if granularity == "call":
+                sched.point(tid, (fn, f"{code.co_name}()"))
+                return None
             if code in opcodes:
                 frame.f_trace_opcodes = True
             return local
@@ -135,7 +144,7 @@ def _thread_body(sched, tid, body, results, tracer):
         sched.thread_end(tid)
 
 
-def execute(bodies, prefix, opcode_code_objects=(), phases=None):
+def execute(bodies, prefix, opcode_code_objects=(), phases=None, granularity="line", only_phase=None):
     """Run the thread bodies once under the schedule ``prefix`` (in THIS process).
     Returns dict(results, choices, points, error)."""
     repo.load()
@@ -143,7 +152,7 @@ def execute(bodies, prefix, opcode_code_objects=(), phases=None):
     dirs = [os.path.join(repo.SRC, "celpy") + os.sep, os.path.join(repo.SRC, "xlate") + os.sep]
     sched = Scheduler(n, prefix, dirs, phases=phases)
     results = [None] * n
-    threads = [threading.Thread(target=_thread_body, args=(sched, i, bodies[i], results, make_tracer(sched, i, dirs, opcode_code_objects)), daemon=True) for i in range(n)]
+    threads = [threading.Thread(target=_thread_body, args=(sched, i, bodies[i], results, make_tracer(sched, i, dirs, opcode_code_objects, granularity, only_phase)), daemon=True) for i in range(n)]
     for t in threads:
         t.start()
     # initial pick: free choice among all threads
